@@ -8,7 +8,7 @@
    [EndsD i dp dt]        : one more [next] answers Done at that cost. *)
 From Coq Require Import List ZArith Bool Arith.
 From YV Require Import Common.Corr Model.Queries Model.Streams
-  Lemmas.StreamsMono Lemmas.StreamsSteps Lemmas.StreamsPipeline Lemmas.StreamsPipeline2 Lemmas.StreamsEnds Lemmas.StreamsGeneric Lemmas.StreamsAll.
+  Lemmas.StreamsMono Lemmas.StreamsSteps Lemmas.StreamsPipeline Lemmas.StreamsPipeline2 Lemmas.StreamsEnds Lemmas.StreamsGeneric Lemmas.StreamsAll Lemmas.StreamsMore.
 Import ListNotations.
 
 (* fuel only bounds the search for an answer: an answer, once given, is final *)
@@ -258,7 +258,30 @@ Example C14_example_all :
                                   VList false [VList false [VInt 3; VInt 3]; VInt 9]])).
 Proof. vm_compute. repeat split. Qed.
 
+(* selectMany over LAZY groups (the selector returns an iterator: sequence($), $.repeat(), a nested pipeline over another
+   host iterator, ...): one element of the source, one application of the selector, and then exactly as many steps of
+   the group as the consumer takes - the group is never materialised *)
+Theorem C14_select_many_lazy : forall g i x i1 dp1 dt1 l gi dp2 dt2, l <> [] ->
+  YieldsD i x i1 dp1 dt1 -> StepsD (gsel_it g x) l dp2 dt2 gi ->
+  StepsD (SelectManyG g i) l (dp1 + dp2) (dt1 + 1 + dt2) (Chain gi (SelectManyG g i1)).
+Proof. exact selectmanyg_lazy. Qed.
+
+(* the group is a second instrumented host iterator: its first n elements cost n pulls of it (and one pull of the outer source) *)
+Theorem C14_select_many_host_group : forall k2 i x i1 dp1 dt1 n, n <> 0 -> YieldsD i x i1 dp1 dt1 ->
+  StepsD (SelectManyG (GHost k2) i) (src_prefix k2 n) (dp1 + n) (dt1 + 1 + 0)
+         (Chain (Src (k2 + Z.of_nat n)) (SelectManyG (GHost k2) i1)).
+Proof. exact selectmanyg_host. Qed.
+
+(* [3, 4, ..].selectMany(sequence($)).take(5) = 3 4 5 6 7 for ONE pull; $outer.selectMany($group).take(3) pulls 1 + 3 *)
+Example C14_example_lazy_groups :
+  eval_kcase {| k_start := 3; k_stages := [SSelectManyG GSeq]; k_take := Some 5; k_vals := ONone; k_pulls := 0; k_ticks := 0 |}
+    = (mkst 1 1, OVal (VList false [VInt 3; VInt 4; VInt 5; VInt 6; VInt 7])) /\
+  eval_kcase {| k_start := 0; k_stages := [SSelectManyG (GHost 10)]; k_take := Some 3; k_vals := ONone; k_pulls := 0; k_ticks := 0 |}
+    = (mkst 4 1, OVal (VList false [VInt 10; VInt 11; VInt 12])).
+Proof. vm_compute. repeat split. Qed.
+
 Print Assumptions C14_bound_all.
 Print Assumptions C14_bound.
 Print Assumptions C14_bound_partial.
 Print Assumptions C14_short_circuit.
+Print Assumptions C14_select_many_lazy.
